@@ -8,7 +8,7 @@ from sim.seams import EXC_CLASSES
 
 SIDS = ("v1", "v2", "v3")
 T_BASES = (1561939200, 1577836800, 1583020800, 1593561600, 1609459200)  # 2019-07 .. 2021-01
-STEPS = (1, 30, 60, 600, 3600, 21600, 86400, 86400 * 3)
+STEPS = (1, 30, 60, 600, 3600, 21600, 86400, 86400 * 3, 86400 * 9, 86400 * 31)
 
 
 # --------------------------------------------------------------------------
